@@ -30,6 +30,31 @@ func main() {
 		os.Exit(2)
 	}
 	switch os.Args[1] {
+	case "list":
+		// prints the scenario catalogue: which scenarios each check runs in each tier
+		for _, tier := range []string{"quick", "thorough"} {
+			fmt.Printf("## %s tier\n\n", tier)
+			for i := 1; i <= 20; i++ {
+				prop := fmt.Sprintf("C%02d", i)
+				jobs := mc.Jobs(prop, tier)
+				if len(jobs) == 0 {
+					continue
+				}
+				fmt.Printf("### %s (%d jobs)\n\n", prop, len(jobs))
+				for _, j := range jobs {
+					extra := ""
+					if j.Strategy == "ddfs" {
+						extra = fmt.Sprintf(" k<=%d, script of %d operations", j.Sc.DevBound, len(j.Sc.Script))
+					}
+					if j.Suffix {
+						extra += " +convergence suffix"
+					}
+					fmt.Printf("- `%s` (%s%s; %d nodes)\n", j.Name, j.Strategy, extra, j.Sc.N)
+				}
+				fmt.Println()
+			}
+		}
+		return
 	case "replay":
 		if len(os.Args) < 3 {
 			fmt.Println("usage: raftmc replay <file> [-v]")
